@@ -23,6 +23,7 @@ import (
 	"fmt"
 	"net"
 	"sync"
+	"sync/atomic"
 	"time"
 
 	"github.com/btcsuite/btcd/btcec/v2"
@@ -164,6 +165,12 @@ type Options struct {
 	// of the gRPC transport; the server always uses gRPC.
 	Websocket bool
 	Patience  time.Duration
+	// AuthRejects: the pairing client's auth-data callback (the hook with
+	// which an application stores the macaroon) takes a while and then
+	// refuses the payload that many times before it accepts one, as a
+	// storage failure would: Noise.DoHandshake fails on the client although
+	// the handshake itself ran to its end.
+	AuthRejects int
 	// ReadBuf is the size of the buffer the client's / the server's reader
 	// passes to Read (default 40000).
 	ReadBuf [2]int
@@ -207,6 +214,20 @@ func New(o Options) (*Session, error) {
 	s.S = mk("s", auth, smax)
 	s.C = mk("c", nil, max)
 	s.X = mk("x", nil, max)
+	if o.AuthRejects > 0 {
+		left := int32(o.AuthRejects)
+		s.C.Data = mailbox.NewConnData(ecdh(s.C.Key), nil, s.Entropy, nil, nil,
+			func(data []byte) error {
+				if atomic.AddInt32(&left, -1) >= 0 {
+					// long enough for the last handshake act, already
+					// handed to the transport, to reach the server
+					time.Sleep(1500 * time.Millisecond)
+					return errors.New("verif: auth data could not be stored")
+				}
+				return nil
+			})
+		s.C.Noise = mailbox.NewNoiseGrpcConn(s.C.Data, mailbox.WithMaxHandshakeVersion(max))
+	}
 	if o.PrePaired {
 		s.S.Data = mailbox.NewConnData(ecdh(s.S.Key), s.C.Key.PubKey(), s.Entropy, auth, nil, nil)
 		s.S.Noise = mailbox.NewNoiseGrpcConn(s.S.Data)
